@@ -177,7 +177,7 @@ def _gen_op(rnd, rc, hints, fcs, packages, flavour="sim"):
     if roll < 0.08:
         op = {"op": "rc_direct", "keys": keylist(rc)}
         if flavour == "sim" and rnd.random() < 0.4:
-            op["contexts"] = {k: rnd.choice(STATES) for k in set(op["keys"]) if rnd.random() < 0.5}
+            op["contexts"] = {k: rnd.choice(STATES) for k in sorted(set(op["keys"])) if rnd.random() < 0.5}
         return op
     if roll < 0.15:
         return {"op": "fc_direct", "keys": keylist(fcs), "text": rnd.choice([None, "", "abc", "4711"])}
